@@ -1,5 +1,5 @@
 ---------------------------- MODULE MC_VarInt_quick ----------------------------
 EXTENDS MC_VarInt
-MCReaderInputs == {5, 10} \X Streams(7, {2, 5})
-MCWriterInputs == Below(2) \cup Powers \cup Negatives
+MCReaderInputs == <<Ladders, Three>> \o ShapeSets(7, 2)
+MCWriterInputs == Powers \cup Negatives
 =============================================================================
